@@ -122,7 +122,9 @@ impl Reduce {
     ///     - Add noise on the aggregations
     pub fn differentially_private(self, parameters: &DpParameters) -> Result<DpRelation> {
         let mut dp_event = DpEvent::no_op();
-        let max_size = self.size().max().unwrap().clone();
+        // The multiplicity estimate is relative to the number of aggregated rows: the size of the
+        // input (the result of an aggregation without GROUP BY has exactly one row)
+        let max_size = self.input().size().max().unwrap().clone();
         let pup_input = PupRelation::try_from(self.input().clone())?;
         let privacy_unit_unique =
             pup_input.schema()[pup_input.privacy_unit()].has_unique_or_primary_key_constraint();
